@@ -16,6 +16,7 @@ def synth_nontrivial(vrs, case):
 class C01(Property):
     id = 'C01'
     number = 1
+    fuzz_targets = {'fuzz_segments': 30000}      # atheris campaign in the thorough tier (crashes are replayed through run())
     technique = ("generated-input search (bounded-exhaustive (vrl, L) window + Hypothesis record sequences and "
                  "file specifications) against an independent strict RP66 V1 framing parser")
     rule = ("cases: synthetic record sequences fed to DLISWriter (enumerated (vrl, L) window, then Hypothesis "
